@@ -24,7 +24,36 @@ def generate(rng, tier):
         policy = "may" if (w // 2) % 2 == 0 else "must"
         nm, s = suites.dwarf_world(rng, arch, nmods=3, nf=5, nprobes=80, policy=policy, with_iter=True)
         out.append(("%s-%d" % (nm, w), s))
+    # valid PE modules (programs of C03's generator), every instruction boundary, boundary-value registers
+    import petruth
+    from fhgen import Script, hx, BOUNDARY, module_pe
+    for w in range(4 if tier == "quick" else 60):
+        s = Script("x86", "may" if w % 2 == 0 else "must")
+        prog = petruth.make_program(rng, 6)
+        base = 0x7ff600000000
+        module_pe(s, "M", base, base + 0x400000, base, 0x140000000, prog["table"], prog["uinfos"], prog["text_lo"], prog["text"])
+        s.add("new U"); s.add("add U M"); s.add("newcache C")
+        lo = 0x10000 * rng.range(1, 0xfff)
+        s.mem("S", [(lo + 8 * i, rng.choice([0, lo + 8 * rng.below(0x100), rng.u64(), base + 0x1000 + rng.below(0x400)])) for i in range(0x100)])
+        s.mem("E", [])
+        pts = [(f, b) for f in prog["funcs"] for b in petruth.boundaries(f)]
+        for _ in range(120 if tier == "quick" else 300):
+            f, (kreg, off, phase, idx) = rng.choice(pts)
+            rva = f.regions[kreg].begin + off
+            mode = rng.choice(["ip", "ra"])
+            addr = base + rva + (1 if mode == "ra" else 0)
+            regs = [rng.choice([rng.choice(BOUNDARY), lo + 8 * rng.below(0x100), rng.u64()]) for _ in range(16)]
+            s.add("unwind U C %s %s %s %s" % (mode, hx(addr), petruth.script_regs(addr, regs), rng.choice(["S", "S", "E"])),
+                  tag="pe:%s:%s:%s" % (f.shape, phase, mode))
+        out.append(("pe-valid-%d" % w, s))
     return out
+
+def k_s5_dep(script, ln, impl_line, desc):
+    """the panic is raised inside pe-unwind-info (unchecked register arithmetic in resolve_operation /
+    resolve_offset), on a PE module"""
+    return bool(impl_line) and "panic dep" in impl_line and "pe-unwind-info" in impl_line
+
+KNOWN = {"S5_dep_pe_unwind_info": k_s5_dep}
 
 def judge(script, impl):
     bad = []
